@@ -365,8 +365,15 @@ def run_task(args, casefd=None):
                 rec.tfail = None
     except _Stop:
         pass
-    except Violation:
-        pass
+    except Violation as v:
+        if not rec.failures and not rec.known_hits:
+            # raised outside the recorder (a harness path that does not
+            # record its failing case): never a silent pass
+            res = rec.result(shard)
+            res["status"] = "error"
+            res["error"] = ("Violation raised but no failing case was "
+                            f"recorded: {v}")[:3000]
+            return res
     except Exception as e:
         res = rec.result(shard)
         if rec.failures:
